@@ -74,6 +74,51 @@ CLAIMS["C06"] = dict(engine="E1+E2", technique="CrossHair symbolic execution (z3
          "triggers the warning.",
     ref="DESIGN.md §4 C06")
 
+CLAIMS["C03"] = dict(engine="E1+E2", technique="CrossHair symbolic execution (z3) of serialize->deserialize in an ideal-primitive environment; pysym/z3 for the ECDSA R||S codec over all (r, s)",
+    text="For all 15 algorithm/curve variants, compact/flattened/general (1-2 signatures), b64 true/false/absent, attached and detached, key given as key / "
+         "mixed-type key set (symbolic random pick) / callable, every payload up to 2 octets: verification of what was produced returns the original payload and "
+         "headers (+ kid of the chosen key), sign and verify see the same signing input with the RFC's parameters; detach/re-attach works. ECDSA signatures are "
+         "fixed-width for every (r, s) below 2^bits.", ref="DESIGN.md §4 C03")
+CLAIMS["C04"] = dict(engine="E1", technique="CrossHair symbolic execution (z3) of encrypt->decrypt in an ideal-primitive environment (AEAD/key-wrap/RSA tables, opaque KDF and ECDH), with producer-operand conformance",
+    text="For the alg x enc pairs in the bound, zip, three serializations, header placements, AAD, apu/apv, key or key set, 1-2 recipients of mixed algorithms and every "
+         "plaintext/AAD up to the bound: decryption of what was encrypted returns the plaintext and the header members in their positions plus exactly the members the "
+         "algorithm adds; direct modes with several recipients and ECDH-1PU key wrapping with a non-CBC-HMAC enc are refused at encryption time.", ref="DESIGN.md §4 C04")
+CLAIMS["C07"] = dict(engine="E1+E2", technique="operand-conformance conditions of the C01/C03 CrossHair harnesses against an RFC 7518 parameter table + pysym/z3 codec kernels; interop run vs an independent implementation as translation validation",
+    text="The signing input, key octets, padding/hash/MGF/salt parameters and the R||S layout handed to / taken from the primitives equal the RFCs' on both the producing "
+         "and the consuming side for every algorithm, and the consumer uses the received header octets whatever their JSON spelling; 390 concrete exchanges with an "
+         "independent implementation agree.", ref="DESIGN.md §4 C07, §8.2")
+CLAIMS["C08"] = dict(engine="E1+E2", technique="operand-conformance conditions of the C02/C04 CrossHair harnesses + pysym/z3 kernels (Concat-KDF other-info, CBC-HMAC, DEFLATE framing); interop run as translation validation",
+    text="AAD, AL, CBC-HMAC key split and tag truncation, RSA paddings, AES-GCM key wrap iv/tag members, PBES2 salt/count/hash, Concat-KDF AlgorithmID/PartyU/PartyV/"
+         "SuppPubInfo (+ tag and Ze||Zs for ECDH-1PU) and raw-DEFLATE framing handed to the primitives equal RFC 7516/7518 and the drafts, producing and consuming; "
+         "918 concrete exchanges with an independent implementation agree.", ref="DESIGN.md §4 C08, §8.2")
+CLAIMS["C09"] = dict(engine="E1+E2", technique="CrossHair symbolic execution (z3) of jwt.encode/decode over JWS and JWE transports (ideal round trip, adversarial decode); pysym/z3 on convert_claims with an abstract datetime",
+    text="Encode->decode returns equal claims and header (+ typ default, overridable; + kid) without altering the caller's header; decode returns only after the transport's "
+         "integrity verdict and only for a JSON object, otherwise the invalid-payload error; datetime exp/nbf/iat become floor(epoch seconds) for every instant and UTC offset.",
+    ref="DESIGN.md §4 C09")
+CLAIMS["C11"] = dict(engine="E2+E1", technique="pysym/z3 on the JWK export/import bindings with symbolic key numbers; CrossHair (z3) on member validation, import/export identity and PEM/DER export arguments with fake native keys",
+    text="Exported EC members have exactly the curve's coordinate length and encode the right numbers for all x, y, d; RSA/OKP members map the right numbers/octets; "
+         "validation refuses missing / mistyped / inconsistent members and partial CRT sets; import-then-export returns the given members; byte exports ask pyca for the "
+         "right encoding, format and encryption.", ref="DESIGN.md §4 C11")
+CLAIMS["C12"] = dict(engine="E1", technique="CrossHair symbolic execution (z3) of every exporting method and of the token-producing round trips with fake keys whose private accessors return distinctive values; transitive scan of the outputs",
+    text="Public JWK / key-set exports contain no private member for any combination of private-named members in the stored JWK (incl. public-only keys carrying CRT "
+         "members and extra parameters); private exports of public-only keys are errors; produced tokens, epk headers and thumbprint inputs contain no private member, "
+         "octets or integers.", ref="DESIGN.md §4 C12")
+CLAIMS["C13"] = dict(engine="E1+E2", technique="CrossHair symbolic execution (z3) of thumbprint/ensure_kid/KeySet with opaque JSON and a recording hash; pysym/z3 for the member encodings feeding the digest",
+    text="The hashed text is the compact JSON of exactly the required members in sorted order under the selected digest for every key type, form, member order and "
+         "optional member set; an auto kid equals the thumbprint, a present kid (even empty) is never overwritten and is stable.", ref="DESIGN.md §4 C13")
+CLAIMS["C14"] = dict(engine="E1", technique="CrossHair symbolic execution (z3) of KeySet lookups and of the consuming / producing operations with key sets (random.choice = symbolic index)",
+    text="Verification and decryption use exactly the key whose kid equals the token's (unknown kid -> invalid-key-id error, no kid only for a one-key set); producing "
+         "with a kid uses that key, without a kid picks among the keys of the algorithm's type, records its kid and the public set consumes the token; set export/import "
+         "keeps every key and every key has a kid.", ref="DESIGN.md §4 C14")
+CLAIMS["C18"] = dict(engine="E1", technique="CrossHair symbolic execution (z3) of the encryption pipeline and key generators with the RNGs replaced by a recording fresh-value source; inductive freshness argument",
+    text="In every call each IV, CEK, key-wrap IV, PBES2 salt and ephemeral key is a value drawn during that call from secrets/os.urandom/the key generator, of exactly "
+         "the required size or on the recipient's curve, no draw serves two roles, two calls and two recipients never share a value; generated keys receive the requested "
+         "size/curve. Statistical quality is outside the claim.", ref="DESIGN.md §4 C18")
+CLAIMS["C20"] = dict(engine="E1", technique="CrossHair symbolic execution (z3) of 12 operation kinds on shared objects with a deep before/after snapshot of all shared mutable state (frame condition) and atomic-publication check of lazy views",
+    text="No operation writes any shared location (algorithm singletons, registries, class tables, module containers, keys, key sets) except the idempotent, "
+         "completely-published lazy JWK view / kid / cached public key of a Key; repeating a call and running another call first give the same outcomes. Independence and "
+         "thread-safety follow from the empty write set.", ref="DESIGN.md §4 C20")
+
 PENDING = {}
 
 
